@@ -14,7 +14,7 @@ THEOREMS = ["C20.C20_expectBody_false_iff", "C20.C20_buffer_drops_body_kinds", "
             "C20.C20_link_connlimit", "C20.C20_link_ratelimit", "C20.C20_link_breaker", "C20.C20_link_balancer",
             "C20.C20_link_buffer", "C20.C20_link_decision", "C20.C20_transparent_composed", "C20.C20_decisive_composed",
             "C20.C20_pw_transparent", "C20.C20_pw_depth_irrelevant", "C20.C20_pw_records", "C20.C20_pw_capabilities",
-            "C20.C20_pw_status_is_wire_status", "C20.C20_pw_status_disorderly_counterexample", "C20.C20_pw_caps_link"]
+            "C20.C20_pw_status_is_wire_status", "C20.C20_pw_status_disorderly_counterexample", "C20.C20_pw_caps_link", "C20.C20_pw_wire_exact"]
 RACE = False
 JOBS = 12
 BATCH_TIMEOUT = 600
